@@ -511,7 +511,9 @@ fn fault_run(bin: &Path, model: &mut Option<Model>, rep: &mut Report, ac: &ArchC
     let _ = std::fs::remove_file(&out);
 }
 
-fn limits_for(ac: &ArchCase, n_stride: u64, exhaustive_below: u64) -> Vec<Option<u64>> {
+/// `footer_step`: 1 = every offset inside the footer; s > 1 = every s-th (the 8-byte length at the
+/// end and the 24 bytes in front of the footer are always enumerated completely).
+fn limits_for(ac: &ArchCase, n_stride: u64, exhaustive_below: u64, footer_step: u64) -> Vec<Option<u64>> {
     let size = ac.full.len() as u64;
     let tail = ac.footer.len() as u64 + 8 + 64;
     let mut v: Vec<u64> = vec![];
@@ -524,7 +526,14 @@ fn limits_for(ac: &ArchCase, n_stride: u64, exhaustive_below: u64) -> Vec<Option
             v.push(n);
             n += step;
         }
-        v.extend(size.saturating_sub(tail)..size);
+        if footer_step <= 1 {
+            v.extend(size.saturating_sub(tail)..size);
+        } else {
+            let fstart = size - 8 - ac.footer.len() as u64;
+            v.extend(fstart.saturating_sub(24)..fstart + 2);
+            v.extend((fstart..size - 8).step_by(footer_step as usize));
+            v.extend(size - 10..size);
+        }
         // chunk boundaries (the model distinguishes them from interior offsets)
         let mut pos = 0u64;
         for (i, c) in ac.chunks.iter().enumerate() {
@@ -607,7 +616,7 @@ pub fn run(ctx: &mut Ctx) -> Report {
         }
     };
     let n_arch = ctx.t(2u64, 8u64);
-    let n_stride = ctx.t(32u64, 160u64);
+    let n_stride = ctx.t(20u64, 160u64);
     let exhaustive_below = ctx.t(0u64, 6500u64);
     let mut archs = vec![];
     for idx in 0..n_arch {
@@ -644,7 +653,9 @@ pub fn run(ctx: &mut Ctx) -> Report {
             jobs.extend(v.into_iter().map(|n| (ai, Some(n))));
             rep.count("big_archive_above_bufwriter_capacity");
         } else {
-            jobs.extend(limits_for(ac, n_stride, exhaustive_below).into_iter().map(|l| (ai, l)));
+            // quick tier: every footer offset for the first archive only (each child costs seconds)
+            let footer_step = if ctx.tier == crate::Tier::Quick { if ai == 0 { 2 } else { 9 } } else { 1 };
+            jobs.extend(limits_for(ac, n_stride, exhaustive_below, footer_step).into_iter().map(|l| (ai, l)));
         }
     }
     rep.add("fault_runs_planned", jobs.len() as u64);
@@ -652,7 +663,7 @@ pub fn run(ctx: &mut Ctx) -> Report {
     let archs_ref = &archs;
     let jobs_ref = &jobs;
     let bin_ref = &bin;
-    crate::props::par_cases(ctx, &mut rep, n_jobs, 8, |m, r, i| {
+    crate::props::par_cases(ctx, &mut rep, n_jobs, 10, |m, r, i| {
         let (ai, limit) = jobs_ref[i as usize];
         fault_run(bin_ref, m, r, &archs_ref[ai], limit, &format!("{i}"));
     });
